@@ -1294,6 +1294,7 @@ impl Shared {
 }
 
 fn threaded_case(case_seed: u64, rep: &mut Report) {
+    let case_started = Instant::now();
     let mut rng = Rng::new(case_seed);
     let mut plan = gen_plan(&mut rng, 4, false);
     // half of the cases use large transactions: many writes to keys of their own around the few
@@ -1514,6 +1515,11 @@ fn threaded_case(case_seed: u64, rep: &mut Report) {
     }
     rep.count(if serial_per_tx { "threaded:cases-one-message-per-tx-at-a-time" } else { "threaded:cases-fully-concurrent" }, 1);
     rep.eval(case_seed, committed + aborted > 0);
+    if !found.is_empty() && case_started.elapsed() > Duration::from_secs(4) {
+        // (a case normally takes milliseconds) lock leases may have run out: not judged
+        rep.inconclusive("a threaded case took longer than 4 s of wall time (lock leases may have run out); not judged");
+        return;
+    }
     let mut seen = BTreeSet::new();
     for f in found {
         if !seen.insert(f.sig.clone()) {
@@ -1556,7 +1562,10 @@ fn burst_case(case_seed: u64, rep: &mut Report) {
     let rounds = 1500u64;
     let mut t0_committed = 0u64;
     let mut done = 0u64;
+    let stall_before = (rep.violations.len(), rep.violations_total);
+    let mut round_started = Instant::now();
     for it in 0..rounds {
+        round_started = Instant::now();
         done += 1;
         let key = format!("k{}", it);
         let (t1, t0) = (case_seed.wrapping_mul(4096).wrapping_add(2 * it + 1), case_seed.wrapping_mul(4096).wrapping_add(2 * it + 2));
@@ -1598,6 +1607,7 @@ fn burst_case(case_seed: u64, rep: &mut Report) {
             let _ = p.abort(t1);
         }
     }
+    drop_violations_of_a_stalled_round(rep, stall_before, round_started);
     rep.count("threaded:same-tx-burst-rounds", done);
     rep.count("threaded:same-tx-burst-rounds-with-later-commit", t0_committed);
     rep.eval(case_seed ^ 0xB0B, t0_committed > 0);
@@ -1615,7 +1625,10 @@ fn burst_commit_case(case_seed: u64, rep: &mut Report) {
     let mut committed = 0u64;
     let mut leftovers = 0u64;
     let mut done = 0u64;
+    let stall_before = (rep.violations.len(), rep.violations_total);
+    let mut round_started = Instant::now();
     for it in 0..rounds {
+        round_started = Instant::now();
         done += 1;
         let t1 = case_seed.wrapping_mul(4096).wrapping_add(it + 1);
         let nkeys = 40 + rng.below(260);
@@ -1677,6 +1690,7 @@ fn burst_commit_case(case_seed: u64, rep: &mut Report) {
             break;
         }
     }
+    drop_violations_of_a_stalled_round(rep, stall_before, round_started);
     rep.count("threaded:prepare-vs-commit-burst-rounds", done);
     rep.count("threaded:prepare-vs-commit-bursts-committed", committed);
     rep.count("threaded:prepare-vs-commit-leftover-entries-swept", leftovers);
@@ -1698,7 +1712,10 @@ fn burst_other_prepare_case(case_seed: u64, rep: &mut Report) {
     let mut granted_after = 0u64;
     let mut refused = 0u64;
     let mut done = 0u64;
+    let stall_before = (rep.violations.len(), rep.violations_total);
+    let mut round_started = Instant::now();
     for it in 0..rounds {
+        round_started = Instant::now();
         done += 1;
         let t1 = case_seed.wrapping_mul(8192).wrapping_add(2 * it + 1);
         let t2 = t1 + 1;
@@ -1802,6 +1819,7 @@ fn burst_other_prepare_case(case_seed: u64, rep: &mut Report) {
             break;
         }
     }
+    drop_violations_of_a_stalled_round(rep, stall_before, round_started);
     rep.count("threaded:other-prepare-vs-commit-rounds", done);
     rep.count("threaded:other-prepare-vs-commit-committed", committed);
     rep.count("threaded:other-prepare-granted-while-commit-ran", granted_during);
@@ -1836,7 +1854,10 @@ fn burst_rollback_other_commit_case(case_seed: u64, rep: &mut Report) {
         d.set("data", TensorValue::Scalar(ScalarValue::Bytes(tag.as_bytes().to_vec())));
         d
     };
+    let stall_before = (rep.violations.len(), rep.violations_total);
+    let mut round_started = Instant::now();
     for it in 0..rounds {
+        round_started = Instant::now();
         done += 1;
         let t1 = case_seed.wrapping_mul(8192).wrapping_add(2 * it + 1);
         let t2 = t1 + 1;
@@ -2072,6 +2093,7 @@ fn burst_rollback_other_commit_case(case_seed: u64, rep: &mut Report) {
             break;
         }
     }
+    drop_violations_of_a_stalled_round(rep, stall_before, round_started);
     rep.count("threaded:rollback-vs-other-commit-rounds", done);
     rep.count("threaded:rollback-vs-other-commit-committed", committed);
     rep.count("threaded:rollback-vs-other-commit-prepare-refused-while-t1-held-keys", refused_first);
@@ -2084,6 +2106,18 @@ fn burst_rollback_other_commit_case(case_seed: u64, rep: &mut Report) {
     rep.count("threaded:rollback-vs-other-commit-deletes-by-t2", t2_deletes);
     rep.count("threaded:rollback-vs-other-commit-keys-compared", keys_checked);
     rep.eval(case_seed ^ 0xC0D, committed > 0);
+}
+
+/// A threaded round that was stalled for seconds (a loaded machine, a paused VM) is not judged: the
+/// participants' 30 s lock leases may have run out in between, and what the shards then show is
+/// lease-expiry behaviour, not evidence. The burst parts stop at the first violation of a case, so
+/// the time since the start of the last round is the duration of the violating round.
+fn drop_violations_of_a_stalled_round(rep: &mut Report, before: (usize, u64), round_started: Instant) {
+    if rep.violations_total > before.1 && round_started.elapsed() > Duration::from_secs(4) {
+        rep.violations.truncate(before.0);
+        rep.violations_total = before.1;
+        rep.inconclusive("a threaded round took longer than 4 s of wall time (lock leases may have run out); not judged");
+    }
 }
 
 /// `c03 witness-race`: two duplicates of PREPARE(T1) and an ABORT(T1) handled at the same time by
@@ -2311,7 +2345,7 @@ fn main() {
         property: "C03",
         rule: "one evaluation = one complete schedule (sim: seeded message-level schedule over 1 real coordinator, 2-3 real participants, 1-3 transactions, <=4 keys per shard, run to quiescence; threaded: one run of 1-4 transaction threads plus 1-2 chaos threads on shared objects; burst parts: one case = 120-1500 rounds of one barrier-released message race on a participant, judged at quiescence after every round). Distinct by the hash of the executed event trace (sim) / the case seed (threaded); non-trivial if at least one transaction reached a decision and the schedule contained a fault (loss, duplication, rejected vote, retransmission, timeout sweep) or more than one transaction.",
         assumptions: vec![
-            "participant key locks keep their 30 s default expiry, which never fires within a case; a simulated schedule that took more than 4 s of wall time (a stalled machine) and shows a violation is counted inconclusive instead of being judged".into(),
+            "participant key locks keep their 30 s default expiry, which never fires within a case; a simulated schedule, threaded case or burst round that took more than 4 s of wall time (a stalled machine, a paused VM) and shows a violation is counted inconclusive instead of being judged".into(),
             "a timeout event = sleep 1.1 ms + cleanup_timeouts() with prepare_timeout_ms = 0; the list it returns is the observation, the clock is not judged".into(),
             "re-delivery of a commit that was already applied is not judged (the statement is silent); the reference state follows every successful TxParticipant::commit".into(),
             "one case in six also uses typed operations (NodeCreate/NodeDelete/TableInsert) next to Put/Delete on the same storage keys (node:n0, table:tb), i.e. overlapping data under different lock names".into(),
